@@ -21,3 +21,8 @@ approve(q, wf.id, g.id, {"user": "alice"})
 proc.process_all(timeout=5)
 w = store.retrieve(wf.id); g = w.stage_by_ref_id("gate")
 print("after ONE approval:", w.status.name, "gate:", g.status.name, runs, "approval output:", g.outputs)
+
+# exit code added when the script was kept as the demonstration of the repaired defect:
+# one approval must let exactly one iteration of the gate through - the second iteration suspends again
+import sys as _sys
+_sys.exit(1 if g.status.name != "SUSPENDED" else 0)
